@@ -38,6 +38,7 @@ type FuncContract struct {
 	Ensures  []*Clause
 	Modifies []*ModEntry
 	ModAll   bool     // modifies *  (everything not immutable)
+	ModExcept []string // modifies * except T1, T2: the fields of these struct types stay untouched (qualified type names)
 	Havocs   []string // parameter names whose pointee is havoc'd deeply
 	Decr     []*Clause
 	Inline   bool
@@ -429,6 +430,13 @@ func (cs *Contracts) loadContractFile(path, pkgPath string, short map[string]str
 				rest = strings.TrimSpace(rest[i+1:])
 			}
 			rest = cs.expandModSets(rest)
+			if word == "modifies" && strings.HasPrefix(rest, "* except ") {
+				curF.ModAll = true
+				for _, t := range splitTop(rest[len("* except "):]) {
+					curF.ModExcept = append(curF.ModExcept, cs.qualify(t, pkgPath, short))
+				}
+				continue
+			}
 			for _, item := range splitTop(rest) {
 				if item == "*" {
 					curF.ModAll = true
